@@ -83,9 +83,9 @@ func runCheck(repo, out, prop, tier string, timeout, seed int, verbose, keep boo
 		return 2
 	}
 	if timeout == 0 {
-		timeout = 10
+		timeout = 30
 		if tier == "thorough" {
-			timeout = 60
+			timeout = 90
 		}
 	}
 	undecided := func(reason string) int {
@@ -162,7 +162,11 @@ func runCheck(repo, out, prop, tier string, timeout, seed int, verbose, keep boo
 	if !keep {
 		defer os.RemoveAll(dir)
 	}
-	solveAll(obls, dir, timeout, tier == "thorough", seed, 16)
+	solverSeed := 0
+	if tier == "thorough" {
+		solverSeed = seed // quick tier: solver defaults, so that the verdict does not depend on the seed
+	}
+	solveAll(obls, dir, timeout, tier == "thorough", solverSeed, 16)
 	tSolve := time.Since(start)
 	if os.Getenv("GOVC_TIMING") != "" {
 		fmt.Fprintf(os.Stderr, "load %v gen %v solve %v\n", tLoad, tGen-tLoad, tSolve-tGen)
